@@ -22,8 +22,8 @@ func verifMapSitesCopy() ([]uintptr, []uint32)
 const HaveMapSeam = true
 
 func MapSeamSet(mode uint32, target uintptr, alt uintptr) { verifMapSet(mode, target, alt) }
-func MapSeamReset()                                      { verifMapReset() }
-func MapSeamSites() ([]uintptr, []uint32)                { return verifMapSitesCopy() }
+func MapSeamReset()                                       { verifMapReset() }
+func MapSeamSites() ([]uintptr, []uint32)                 { return verifMapSitesCopy() }
 
 // SiteName symbolises the return PC of a range-over-map statement.
 func SiteName(pc uintptr) string {
